@@ -1,9 +1,77 @@
-(* C09 — theorems are added below as the proofs are completed; see DESIGN.md *)
+(* C09 — peak- and trough-centred analyses are mirror images.
+   Model: Model/Features.v.  Both analyses run on the same negated sample list with the same
+   kernel outputs k (the harness computes them on the negated signal in both cases; for the
+   amplitude method the detector mask is the same because the envelope of -x is that of x —
+   checked on every generated signal).  The equality below is exact: indices, every shape column
+   (after the documented swap / negation / 1 - x), all burst features, all labels, and errors. *)
 From Coq Require Import List Arith Bool ZArith Floats.PrimFloat.
 Import ListNotations.
-From ByC Require Import Base.Result Model.Cycles Model.Labels.
+From ByC Require Import Base.Result Model.Cycles Model.Features Proofs.FeaturesSpec Proofs.Mirror.
 
-Theorem C09_placeholder_period_is_next_minus_last : forall sigc amp r,
-  period (shape_of sigc amp r) = (s_next r - s_last r)%Z.
+Theorem C09_trough_analysis_is_mirrored_peak_analysis_of_negated_signal : forall raw k b m,
+  compute_features Trough raw k b m =
+  rmap (map mirror_frow) (compute_features Peak (map PrimFloat.opp raw) k b m).
+Proof. exact compute_features_mirror. Qed.
+Print Assumptions C09_trough_analysis_is_mirrored_peak_analysis_of_negated_signal.
+
+(* the mirror of a row: names swapped, extremum voltages negated, symmetry fractions 1 - x,
+   burst features and label untouched *)
+Theorem C09_mirror_row_definition : forall r,
+  mirror_frow r = {| r_s := rename_srow (r_s r); r_shape := rename_shape (r_shape r);
+                     r_burst := r_burst r; r_is_burst := r_is_burst r |}.
 Proof. reflexivity. Qed.
-Print Assumptions C09_placeholder_period_is_next_minus_last.
+Print Assumptions C09_mirror_row_definition.
+
+Theorem C09_same_number_of_cycles : forall raw k b m outT outP,
+  compute_features Trough raw k b m = Ok outT ->
+  compute_features Peak (map PrimFloat.opp raw) k b m = Ok outP -> length outT = length outP.
+Proof. exact mirror_counts. Qed.
+Print Assumptions C09_same_number_of_cycles.
+
+Theorem C09_same_sample_indices : forall raw k b m outT outP,
+  compute_features Trough raw k b m = Ok outT ->
+  compute_features Peak (map PrimFloat.opp raw) k b m = Ok outP ->
+  forall i, i < length outP ->
+    let st := r_s (nth i outT frow0) in
+    let sp := r_s (nth i outP frow0) in
+    s_center st = s_center sp /\ s_last st = s_last sp /\ s_next st = s_next sp /\
+    s_zx_rise st = s_zx_decay sp /\ s_zx_decay st = s_zx_rise sp /\ s_last_zx st = s_last_zx sp.
+Proof. exact mirror_samples. Qed.
+Print Assumptions C09_same_sample_indices.
+
+Theorem C09_shape_columns_mirrored : forall raw k b m outT outP,
+  compute_features Trough raw k b m = Ok outT ->
+  compute_features Peak (map PrimFloat.opp raw) k b m = Ok outP ->
+  forall i, i < length outP ->
+    let ft := r_shape (nth i outT frow0) in
+    let fp := r_shape (nth i outP frow0) in
+    period ft = period fp /\
+    time_peak ft = time_trough fp /\ time_trough ft = time_peak fp /\
+    time_decay ft = time_rise fp /\ time_rise ft = time_decay fp /\
+    volt_peak ft = (- volt_trough fp)%float /\ volt_trough ft = (- volt_peak fp)%float /\
+    volt_decay ft = volt_rise fp /\ volt_rise ft = volt_decay fp /\
+    volt_amp ft = volt_amp fp /\
+    time_rdsym ft = (1 - time_rdsym fp)%float /\ time_ptsym ft = (1 - time_ptsym fp)%float /\
+    band_amp ft = band_amp fp.
+Proof. exact mirror_shape. Qed.
+Print Assumptions C09_shape_columns_mirrored.
+
+Theorem C09_identical_burst_features : forall raw k b m outT outP,
+  compute_features Trough raw k b m = Ok outT ->
+  compute_features Peak (map PrimFloat.opp raw) k b m = Ok outP ->
+  map r_burst outT = map r_burst outP.
+Proof. exact mirror_burst_cols. Qed.
+Print Assumptions C09_identical_burst_features.
+
+Theorem C09_identical_labels : forall raw k b m outT outP,
+  compute_features Trough raw k b m = Ok outT ->
+  compute_features Peak (map PrimFloat.opp raw) k b m = Ok outP ->
+  map r_is_burst outT = map r_is_burst outP.
+Proof. exact mirror_labels_col. Qed.
+Print Assumptions C09_identical_labels.
+
+(* one side fails iff the other does, with the same error *)
+Theorem C09_errors_mirrored : forall raw k b m e,
+  compute_features Trough raw k b m = Err e <-> compute_features Peak (map PrimFloat.opp raw) k b m = Err e.
+Proof. exact mirror_err. Qed.
+Print Assumptions C09_errors_mirrored.
